@@ -477,6 +477,17 @@ impl InternerGuard<'_> {
             children: Edges::Version { ref edges },
         } = node
         else {
+            // A `python_full_version` node must come before every variable that orders after
+            // it. If this node's variable is one of those, there is no `python_full_version`
+            // node below it, so conjoin with the range instead of planting one underneath.
+            if node.var > Variable::Version(MarkerValueVersion::PythonFullVersion) {
+                let var = Variable::Version(MarkerValueVersion::PythonFullVersion);
+                let edges = Edges::Version {
+                    edges: Edges::from_range(&py_range),
+                };
+                let range = self.create_node(var, edges);
+                return self.and(i, range);
+            }
             // Complexify all nodes recursively.
             let children = node.children.map(i, |node_id| {
                 self.complexify_python_versions(node_id, py_lower, py_upper)
